@@ -29,3 +29,14 @@ func (v verifFileInfo) Sys() interface{} { return &v.st }
 func VerifLocalToQID(dev, ino uint64) (uint64, error) {
 	return localToQid("", verifFileInfo{st: syscall.Stat_t{Dev: dev, Ino: ino}})
 }
+
+// VerifResetQIDs forgets every fallback QID path handed out so far, so that a
+// simulated run starts from the state of a fresh process (the table is
+// process-wide, and a worker process executes many runs).
+func VerifResetQIDs() {
+	qids.Range(func(k, _ interface{}) bool {
+		qids.Delete(k)
+		return true
+	})
+	nextQid.Store(uint64(1) << 63)
+}
